@@ -546,3 +546,46 @@ func stripIface(v ssa.Value) ssa.Value {
 	}
 	return v
 }
+
+// ---------- JS-WHOLE
+
+// ruleJSWhole: the entry points that parse a complete schema text reject text
+// that is not exactly one JSON value. json.Unmarshal does; a streaming
+// decoder reads one value and stops, so trailing garbage would be accepted.
+func ruleJSWhole(c *Ctx) {
+	c.Rule("JS-WHOLE", "schema text is parsed as a whole document (json.Unmarshal), not with a streaming decoder that stops after the first value", 1)
+	P := c.P
+	schemaT := P.NamedType(P.Avro, "Schema")
+	ufn := P.Method(schemaT, "UnmarshalJSONFrom")
+	n := 0
+	for _, fn := range P.ModuleFuncs() {
+		if fn == ufn || fn.Pkg != P.Avro {
+			continue
+		}
+		for _, cs := range callsIn(fn) {
+			if cs.Static == nil {
+				continue
+			}
+			q := qualName(cs.Static)
+			// does the call decode into a Schema?
+			intoSchema := false
+			for _, a := range cs.Common.Args {
+				t := stripChange(a).Type()
+				if pt, ok := t.Underlying().(*types.Pointer); ok && schemaT != nil && types.Identical(pt.Elem(), schemaT) {
+					intoSchema = true
+				}
+			}
+			switch {
+			case strings.HasSuffix(q, "json.Unmarshal") && intoSchema:
+				n++
+				c.OK(fmt.Sprintf("%s/parse#%d", fnKey(fn), n), P.pos(cs.Instr.Pos()), "json.Unmarshal: the whole text must be one value")
+			case (strings.HasSuffix(q, "json.UnmarshalDecode") || strings.HasSuffix(q, "json.UnmarshalRead")) && intoSchema:
+				n++
+				c.Unk(fmt.Sprintf("%s/parse#%d", fnKey(fn), n), P.pos(cs.Instr.Pos()), "a schema is decoded from a stream: the decoder stops after the first value, so text with trailing data is accepted unless end of input is checked afterwards (not recognised here)")
+			}
+		}
+	}
+	if n == 0 {
+		c.Unk("avro/schema-parse-entry", "-", "no call parsing JSON into a Schema was found outside UnmarshalJSONFrom")
+	}
+}
